@@ -108,6 +108,9 @@ struct HarnessDef {
   std::function<Verdict(const Json::Value&)> run;
   // optional fixed cases executed before the random campaign ("det" mode)
   std::function<std::vector<Json::Value>()> fixed;
+  // optional: completes a fixed case just before it runs (the enumerated list then holds only what differs
+  // between cases; what is run, saved and replayed is the completed, self-contained case)
+  std::function<void(Json::Value&)> expand;
 };
 
 // argv: gen --out F --fail F --cur F | replay FILE | fixed --out F --fail F
